@@ -100,7 +100,7 @@ Seen(e) ==
 (***************************************************************************)
 Default(v) == Prog.globals[S!VarMap[v]].v
 ElemView(a) ==
-  [ type |-> IF a.kind = "fn" THEN 1 ELSE 0,
+  [ type |-> IF a.kind = "fn" THEN 1 ELSE IF a.kind = "game" THEN 2 ELSE 0,
     temps |-> [x \in (DOMAIN a.temps) \ {"$ret"} |-> a.temps[x]],
     knot |-> IF a.fr = <<>> THEN "" ELSE LET ch == Prog.ochain[Head(a.fr).b] IN IF ch = <<>> THEN "" ELSE ch[1] ]
 ThreadView(t) == [i \in 1..Len(t) |-> ElemView(t[Len(t) + 1 - i])]
